@@ -20,7 +20,7 @@ func GetTargetChangeHash(target model.Target, dependencyHashes []string) (string
 		return targetDefinitionHash, nil
 	}
 
-	inputContentHash, err := HashFiles(absolutePackagePath, target.Inputs)
+	inputContentHash, err := HashInputFiles(absolutePackagePath, target.Inputs)
 	if err != nil {
 		return "", fmt.Errorf("failed hashing input files %s for target %s: %w", strings.Join(target.Inputs, ","), target.Label, err)
 	}
